@@ -16,7 +16,7 @@ import numpy as np
 
 from .. import core
 
-MAX_PER_CLASS = 12      # replay files written per class of failure (all failures are counted)
+MAX_PER_CLASS = 6       # replay files written per class of failure (all failures are counted)
 
 
 # ---------------------------------------------------------------- concretisation (spec value -> real arguments)
